@@ -22,6 +22,10 @@ def heartbeat_follow_through(tier):
                  ("c15-client60-server2-talks", 60, 2, c17._every("shb", 1800, 9000), 9500)]
     sessions = [dict(id=900 + i, pattern=p, ch=ch, sh=sh, sched=sched, end=end)
                 for i, (p, ch, sh, sched, end) in enumerate(pats)]
+    # the announced interval governs from TuneOk on, also when the server takes 1.5 intervals to answer Open
+    sessions.append(dict(id=950, pattern="c15-slow-open", ch=1, sh=60, sched=c17._every("shb", 900, 3200), end=3300,
+                         open_delay=1500))
+    sessions.append(dict(id=951, pattern="c15-slow-open-silence", ch=60, sh=1, sched=[], end=5000, open_delay=1500))
     tdir = vlib.outdir(PROP, "hbtraces", clean=True)
     c17.run_sessions(sessions, tdir, par=8)
     files = sorted(glob.glob(os.path.join(tdir, "c17-*.ndjson")))
